@@ -4,6 +4,7 @@
      dist <str>                              -> OK value | E invalid|number|unit
      cellsize cx cy <unit>                   -> vx vy | KEYERR
      res first last nm1                      -> value
+     cellsize_full pair|scalar|none a b xmin xmax wm1 ymin ymax hm1 <0|1> <unit> -> vx vy | KEYERR
      circle cx cy <radius str>               -> K rows cols cells.. | E ..
      annulus cx cy <outer str> <inner str>   -> K rows cols cells.. | E .. | PADERR
      ellipse hw hh / annulus_hw hwo hho hwi hhi (integers)
@@ -73,6 +74,15 @@ let () = main_loop (fun op r ->
   | "cellsize" ->
     let cx = next_fl r in let cy = next_fl r in let u = next_str r in
     (match f_calc_cellsize cx cy u with None -> "KEYERR" | Some (a, b) -> out_fl a ^ " " ^ out_fl b)
+  | "cellsize_full" ->
+    let kind = next r in
+    let a = next_fl r in let b = next_fl r in
+    let xmin = next_fl r in let xmax = next_fl r in let wm1 = next_fl r in
+    let ymin = next_fl r in let ymax = next_fl r in let hm1 = next_fl r in
+    let hasunit = next_int r in let u = next_str r in
+    let attr = (match kind with "pair" -> ResPair (a, b) | "scalar" -> ResScalar a | _ -> ResAbsent) in
+    (match f_calc_cellsize_full attr (if hasunit = 1 then Some u else None) xmin xmax wm1 ymin ymax hm1 with
+     | None -> "KEYERR" | Some (p, q) -> out_fl p ^ " " ^ out_fl q)
   | "res" ->
     let a = next_fl r in let b = next_fl r in let n = next_fl r in out_fl (f_calc_res a b n)
   | "circle" ->
